@@ -257,6 +257,28 @@ func checkC03(c *ev.Ctx) {
 		c.Count("gen_matched_literals", int64(st.MatchedLits))
 		gens[i] = &validStream{ID: fmt.Sprintf("gen%d", i), Src: "refenc", Bytes: stream, Content: content, Decl: decl, Feat: feat}
 	})
+	// far distances: every distance slot a 16 MiB (thorough: 128 MiB) window can use
+	{
+		maxD, code := int64(1<<24), byte(26)
+		if thorough(c) {
+			maxD, code = 1<<27, 32
+		}
+		l2, content, probes := ref.GenFarLZMA2(prng.New(c.Seed, 33), maxD)
+		xzs := ref.BuildXZ(ref.CheckCRC32, []ref.BlockSpec{{LZMA2: l2, Content: content, DictCode: code}})
+		o, _, err := ref.DecodeXZ(xzs, 0)
+		ok := err == nil && bytes.Equal(o, content)
+		if ok && lzc.Available() {
+			res := lzc.DecodeXZ(xzs, false, 0)
+			ok = res.OK() && bytes.Equal(res.Out, content)
+		}
+		if !ok {
+			c.Count("generator_rejected", 1)
+			c.Inconclusive(fmt.Sprintf("far-distance stream not accepted by the references: %v", err))
+		} else {
+			streams = append(streams, validStream{ID: "far", Src: "refenc", Bytes: xzs, Content: content, Decl: 0, Feat: fmt.Sprintf("far-distances up to %d (%d probes)", maxD, probes)})
+			c.Set("far_distance_probes", probes)
+		}
+	}
 	for _, s := range fresh {
 		if s != nil {
 			streams = append(streams, *s)
